@@ -103,7 +103,10 @@ def wire_forms(m):
 
 
 def observe(emitted, raised=None):
-    return {"raised": raised, "emitted": [wire_forms(m) for m in emitted]}
+    o = {"raised": raised, "emitted": [wire_forms(m) for m in emitted]}
+    if _EMITTED_HOOK is not None:
+        _EMITTED_HOOK(list(emitted))  # after the wire forms were taken
+    return o
 
 
 # ---------------------------------------------------------------------------------------------
@@ -901,6 +904,17 @@ def d_handle_message(a):
         async def custom(message, session_id):
             return h.create_response(message.id, payload), None
         h.register_method(s_(a["method"]), custom)
+    elif sc in ("reentrant", "reentrant-raises"):
+        from chuk_mcp.protocol.messages.json_rpc_message import parse_message as _pm
+
+        async def custom(message, session_id):  # noqa: F811
+            inner, _ = await h.handle_message(_pm({"jsonrpc": "2.0", "id": "inner", "method": "ping"}))
+            nested.append(inner)
+            if sc == "reentrant-raises":
+                raise make_exc(a.get("exc"), s_(a.get("text") or [120]))
+            return h.create_response(message.id, payload), None
+        nested = []
+        h.register_method(s_(a["method"]), custom)
     elif sc == "custom-raises":
         async def custom(message, session_id):  # noqa: F811
             raise make_exc(a.get("exc"), s_(a.get("text") or [98, 111, 111, 109]))
@@ -912,6 +926,8 @@ def d_handle_message(a):
         msg = _incoming(a)
     r, exc = _run(lambda: h.handle_message(msg))
     out = [r[0]] if r is not None and r[0] is not None else []
+    if sc in ("reentrant", "reentrant-raises"):
+        out += [x for x in nested if x is not None]
     return out, exc
 
 
@@ -1276,6 +1292,10 @@ def _inner(a):
         return [_DumpOnly(d_create_request(a)[0])]
     if kind == "list":
         return [[d_create_request(a)[0].model_dump(exclude_none=True), d_create_notification(a)[0].model_dump(exclude_none=True)]]
+    if kind == "big-between-small":  # one message far above every buffer (64 KiB chunks) between two small ones
+        big = "x\u00e9" * (int(a.get("n", 100_000)) // 2)
+        return [m.create_request(method_of(a), {"i": 1}, id=1), m.create_request(method_of(a), {"blob": big, "n": None}, id=idv if idv is not None else 2),
+                m.create_notification(method_of(a), {"i": 3})]
     if kind == "burst":  # n messages in a row through one transport object (stream capacity is 100)
         base = d_create_request(a)[0].model_dump(exclude_none=True)
         return [dict(base, id=i) if i % 2 else m.create_request(method_of(a), params, id=i) for i in range(int(a.get("n", 101)))]
@@ -1528,15 +1548,29 @@ def drivers():
     return D
 
 
+class FormattingHandler(__import__("logging").Handler):
+    """what a host's handler does: it formats every record (a NullHandler never does, which hides %-style argument
+    mismatches and failing __str__ / __repr__ of logged arguments)"""
+
+    errors: list = []
+
+    def emit(self, record):
+        self.format(record)
+
+    def handleError(self, record):
+        import sys
+        FormattingHandler.errors.append(repr(sys.exc_info()[1])[:200])
+
+
 class debug_logging:
-    """as a host application with logging configured at DEBUG (records go to a NullHandler)"""
+    """as a host application with logging configured at DEBUG and a handler that formats each record"""
 
     def __enter__(self):
         import logging
 
         root = logging.getLogger()
         self.prev = (root.manager.disable, root.level, list(root.handlers))
-        root.handlers[:] = [logging.NullHandler()]
+        root.handlers[:] = [FormattingHandler()]
         root.setLevel(logging.DEBUG)
         logging.disable(logging.NOTSET)
 
@@ -1550,12 +1584,78 @@ class debug_logging:
         return False
 
 
+def mutate_deep(x, depth=0):
+    """edit every container reachable from x in place (what middleware / a consumer of a message may do)"""
+    if isinstance(x, dict):
+        for k in list(x):
+            mutate_deep(x[k], depth + 1)
+        x["_meta"] = {"edited-by-consumer": depth}
+    elif isinstance(x, list):
+        for y in x:
+            mutate_deep(y, depth + 1)
+        x.append({"edited-by-consumer": depth})
+
+
+def mutate_emitted(objs):
+    for m in objs:
+        if isinstance(m, dict):
+            for k in ("params", "result", "error"):
+                mutate_deep(m.get(k))
+        else:
+            for k in ("params", "result", "error"):
+                try:
+                    mutate_deep(getattr(m, k, None))
+                except Exception:  # noqa: BLE001
+                    pass
+
+
+_EMITTED_HOOK = None
+
+
 def run_case(case):
-    """case = {"emitter": name, "args": {...}, "debug_log": bool} -> observation"""
-    if case.get("debug_log"):
-        with debug_logging():
-            return _run_case(case)
-    return _run_case(case)
+    """case = {"emitter", "args", "debug_log": bool, "repeat_mutate": k, "env": {...}} -> observation.
+    repeat_mutate=k: the emitter runs k+1 times with the same arguments; after each of the first k runs the payload
+    containers of what it emitted are edited in place (both emissions stay alive).  The observation is the LAST run's:
+    it must look exactly like a first run."""
+    import os
+
+    env = case.get("env") or {}
+    saved = {k: os.environ.get(k) for k in env}
+    os.environ.update(env)
+    try:
+        if case.get("debug_log"):
+            with debug_logging():
+                return _run_repeated(case)
+        return _run_repeated(case)
+    finally:
+        for k, v in saved.items():
+            if v is None:
+                os.environ.pop(k, None)
+            else:
+                os.environ[k] = v
+
+
+def _run_repeated(case):
+    global _EMITTED_HOOK
+    k = int(case.get("repeat_mutate") or 0)
+    keep, first = [], None
+    for _ in range(k):
+        got = []
+        _EMITTED_HOOK = got.append
+        try:
+            o1 = _run_case(case)
+        finally:
+            _EMITTED_HOOK = None
+        if first is None:
+            first = [e.get("dump", {}).get("wire") for e in o1.get("emitted", [])]
+        for objs in got:
+            mutate_emitted(objs)
+            keep.append(objs)  # stay alive while the next emission is built
+    o = _run_case(case)
+    if k:
+        o["repeated"] = k
+        o["first_wires"] = first
+    return o
 
 
 def _run_case(case):
